@@ -50,7 +50,11 @@ LABEL_POOLS = [
     [1, 2.5, 0, -0.5, 3, "a"],
     # strings whose natural (numeric suffix) order differs from their lexicographic order, next to an int
     ["x2", "x10", 3, "x1", "x9", 12],
+    # different labels with equal str()
+    [1, "1", 2, "2", (0, 1), "(0, 1)"],
 ]
+# the pools built to upset key ordering / squashing / hashing (a quarter of the cases of the checks that use them)
+ORDER_POOLS = [p for p in LABEL_POOLS if p[:2] in ([-1, -2], [-1, 2], [1, 2.5], ["x2", "x10"], [1, "1"])]
 # partner of equal hash for the labels of the last pool
 HASH_TWIN = {-1: -2, -2: -1, 0: 2 ** 61 - 1, 2 ** 61 - 1: 0}
 INT_POOLS = [
